@@ -400,47 +400,54 @@ theorem stop_step {s s' : State} {id code : Nat} {b : Bool}
           hrsok.fin_le⟩
       split at h
       · contradiction
-      · rename_i s4 hfree
+      · rename_i s4a hfree
         split at h
         · contradiction
-        · rename_i s5 t hcq
-          simp only [Option.some.injEq, Prod.mk.injEq] at h
-          obtain ⟨rfl, rfl⟩ := h
-          obtain ⟨hc4, hrv4⟩ := freeRecvIf_rv hfree
-          have hq := rvw_queueStopSending (s1.putRecv id rs') stopSending id code
-          have hc4' : s4.rcore = s.rcore := by
-            rw [hc4]; exact (congrArg RView.core hq).trans hc1
-          simp only [State.rcore, RCore.mk.injEq] at hc4'
-          obtain ⟨q1, q2, q3, q4, q5, q6, q7⟩ := creditAndQueue_spec hcq
-          have hl4 : s4.localMaxData < 2 ^ 64 := by rw [hc4'.2.1]; exact i.lmd_u64
-          have hrl := i.recvd_le
-          simp only [State.rvw, State.rcore] at hrl
-          constructor
-          · refine i.step (by rw [q4, hc4'.2.2.2.2]) (q5 hl4).2 ?_ ?_
-            · have := (q5 hl4).1; rw [q2, hc4'.1]; rw [hc4'.2.1] at this; omega
-            · intro k r hk
-              have e5 : s5.rv k = s4.rv k := by simp only [State.rv, q1]
-              rw [e5, hrv4 k] at hk
-              split at hk
-              · contradiction
-              · have e1 : ((s1.putRecv id rs').queueStopSending stopSending id code).rv k =
-                    (s1.putRecv id rs').rv k := congrFun (congrArg RView.rv hq) k
-                rw [e1, rv_putRecv hw.choose_spec] at hk
-                by_cases hki : k = id
-                · subst hki; simp only [↓reduceIte, Option.some.injEq] at hk; subst hk; exact Or.inr ok'
-                · simp only [hki, ↓reduceIte] at hk; exact hrv1' k r hk
-          · intro C b u
-            have hbal := q6 u
-            have hd : discarded s (.stop id code) .ok = credits := by
-              simp only [discarded]
-              rcases hor with hh | ⟨hh, hnew⟩
-              · rw [hh, hcr]
-              · rw [hh, hcr, hnew]; simp [Recv.new]
-            simp only [↓reduceIte, hd]
-            unfold Bal at *
-            rw [q3, hc4'.2.2.1]
-            rw [hc4'.2.1, hc4'.2.2.2.1] at hbal
-            omega
+        · rename_i s4 hqm
+          split at h
+          · contradiction
+          · rename_i s5 t hcq
+            simp only [Option.some.injEq, Prod.mk.injEq] at h
+            obtain ⟨rfl, rfl⟩ := h
+            -- announcing the freed slot (`queue_max_stream_id`) does not touch the receive side's accounting
+            have hqv := rvw_queueMaxIf hqm
+            obtain ⟨hc4a, hrv4a⟩ := freeRecvIf_rv hfree
+            have hc4 : s4.rcore = _ := (congrArg RView.core hqv).trans hc4a
+            have hrv4 : ∀ k, s4.rv k = _ := fun k => (congrFun (congrArg RView.rv hqv) k).trans (hrv4a k)
+            have hq := rvw_queueStopSending (s1.putRecv id rs') stopSending id code
+            have hc4' : s4.rcore = s.rcore := by
+              rw [hc4]; exact (congrArg RView.core hq).trans hc1
+            simp only [State.rcore, RCore.mk.injEq] at hc4'
+            obtain ⟨q1, q2, q3, q4, q5, q6, q7⟩ := creditAndQueue_spec hcq
+            have hl4 : s4.localMaxData < 2 ^ 64 := by rw [hc4'.2.1]; exact i.lmd_u64
+            have hrl := i.recvd_le
+            simp only [State.rvw, State.rcore] at hrl
+            constructor
+            · refine i.step (by rw [q4, hc4'.2.2.2.2]) (q5 hl4).2 ?_ ?_
+              · have := (q5 hl4).1; rw [q2, hc4'.1]; rw [hc4'.2.1] at this; omega
+              · intro k r hk
+                have e5 : s5.rv k = s4.rv k := by simp only [State.rv, q1]
+                rw [e5, hrv4 k] at hk
+                split at hk
+                · contradiction
+                · have e1 : ((s1.putRecv id rs').queueStopSending stopSending id code).rv k =
+                      (s1.putRecv id rs').rv k := congrFun (congrArg RView.rv hq) k
+                  rw [e1, rv_putRecv hw.choose_spec] at hk
+                  by_cases hki : k = id
+                  · subst hki; simp only [↓reduceIte, Option.some.injEq] at hk; subst hk; exact Or.inr ok'
+                  · simp only [hki, ↓reduceIte] at hk; exact hrv1' k r hk
+            · intro C b u
+              have hbal := q6 u
+              have hd : discarded s (.stop id code) .ok = credits := by
+                simp only [discarded]
+                rcases hor with hh | ⟨hh, hnew⟩
+                · rw [hh, hcr]
+                · rw [hh, hcr, hnew]; simp [Recv.new]
+              simp only [↓reduceIte, hd]
+              unfold Bal at *
+              rw [q3, hc4'.2.2.1]
+              rw [hc4'.2.1, hc4'.2.2.2.1] at hbal
+              omega
 
 theorem recvReceivedReset_step {s s' : State} {id : Nat} {r : Option (Option Nat)}
     (h : s.recvReceivedReset id = some (s', r)) (i : RInv s) :
@@ -847,9 +854,10 @@ theorem wdv_stop {s s' : State} {id code : Nat} {b : Bool}
        first
         | (obtain ⟨rfl, _⟩ := h; exact WDV.of_eq hg)
         | (have hf := wdv_freeRecvIf ‹State.freeRecvIf _ _ _ = some _›
+           have hm := wdv_of_rvw (rvw_queueMaxIf ‹State.queueMaxIf _ _ = some _›)
            have hc := wdv_credit ‹State.creditAndQueue _ _ = some _›
            obtain ⟨rfl, _⟩ := h
-           exact (WDV.of_eq (hf.trans ((wdv_of_rvw (rvw_queueStopSending _ _ _ _)).trans hg))).trans hc))
+           exact (WDV.of_eq (hm.trans (hf.trans ((wdv_of_rvw (rvw_queueStopSending _ _ _ _)).trans hg)))).trans hc))
 
 theorem wdv_recvReceivedReset {s s' : State} {id : Nat} {r : Option (Option Nat)}
     (h : s.recvReceivedReset id = some (s', r)) : WDV s.wdv s'.wdv := by
